@@ -41,6 +41,10 @@ pub struct Unit {
     /// a syntax error that makes the parser read to the end of the input
     #[serde(default)]
     pub to_eof: bool,
+    /// bytes the unit reads through descriptor 0 while that descriptor is
+    /// redirected elsewhere (they are not input of the shell)
+    #[serde(default)]
+    pub foreign0: u32,
 }
 
 #[derive(Clone, Copy, Debug, Serialize, Deserialize, PartialEq, Eq)]
@@ -281,7 +285,7 @@ impl Gen<'_> {
                 let body: Vec<String> = (0..n).map(|_| self.w()).collect();
                 let k = self.tell();
                 let v = self.v.clone();
-                let form = self.rng.below(7);
+                let form = self.rng.below(9);
                 let push_body = |u: &mut Unit, indent: &str, delim: &str| {
                     for w in &body {
                         u.lines.push(format!("{indent}{w} $v"));
@@ -328,6 +332,26 @@ impl Gen<'_> {
                         u.lines.push("  catfd 3 3<<EOF".into());
                         push_body(&mut u, "", "EOF");
                         u.lines.push(format!("}}; tell {k}"));
+                    }
+                    7 | 8 => {
+                        // two redirections of the SAME descriptor, the one the
+                        // shell may be reading its input from: the command sees
+                        // the last one, and afterwards the shell's input is
+                        // where it was (the saved copies are undone in reverse)
+                        let (x, y) = (self.w(), self.w());
+                        u.lines.push(
+                            if form == 7 {
+                                format!("read a <<E1 <<E2; echo \"[$a]\"; tell {k}")
+                            } else {
+                                format!("{{ read a; }} </work/g1.txt <<E1 <<E2; echo \"[$a]\"; tell {k}")
+                            },
+                        );
+                        u.lines.push(x);
+                        u.lines.push("E1".into());
+                        u.lines.push(y.clone());
+                        u.lines.push("E2".into());
+                        u.out.push(format!("[{y}]"));
+                        u.foreign0 = y.len() as u32 + 1;
                     }
                     _ => {
                         let w = self.w();
@@ -687,6 +711,8 @@ pub struct Expect {
     pub status: u8,
     /// (tell id, expected input offset)
     pub tells: Vec<(u32, u64)>,
+    /// (tell id, bytes read so far through a redirected descriptor 0)
+    pub foreign: Vec<(u32, u64)>,
     pub reads_stdin: bool,
     pub has_error: bool,
     /// what the verbose option echoes to stderr when the script is read through
@@ -699,6 +725,8 @@ pub fn expect(c: &Case) -> Expect {
     let mut stdout = String::new();
     let mut status = 0u8;
     let mut tells = Vec::new();
+    let mut foreign = Vec::new();
+    let mut foreign_cum = 0u64;
     let mut reads_stdin = false;
     let mut has_error = false;
     let mut done = false;
@@ -735,8 +763,10 @@ pub fn expect(c: &Case) -> Expect {
             stdout.push_str(o);
             stdout.push('\n');
         }
+        foreign_cum += u.foreign0 as u64;
         for (k, at) in &u.tells {
             tells.push((*k, ends[*at]));
+            foreign.push((*k, foreign_cum));
         }
         if let Some(s) = u.status {
             status = s;
@@ -762,6 +792,7 @@ pub fn expect(c: &Case) -> Expect {
         stdout,
         status,
         tells,
+        foreign,
         reads_stdin,
         has_error,
         echoed: any_verbose.then_some(echoed),
@@ -826,7 +857,8 @@ fn check_cut(prefix: &Expect, variant: Variant, obs: &Observed) -> Option<Viol> 
                     continue;
                 }
                 seen.push(k);
-                let got = if variant == Variant::FileStdin { e.a as u64 } else { consumed };
+                let foreign = prefix.foreign.iter().find(|t| t.0 == k).map(|t| t.1).unwrap_or(0);
+                let got = if variant == Variant::FileStdin { e.a as u64 } else { consumed.saturating_sub(foreign) };
                 if got != want {
                     return Some((
                         "read-ahead".into(),
@@ -984,14 +1016,18 @@ fn check_run(exp: &Expect, variant: Variant, obs: &Observed) -> Option<Viol> {
     if matches!(variant, Variant::FileStdin | Variant::PipeStdin) {
         // no read-ahead: at every tell the input has been consumed exactly up
         // to the end of the command's last line
-        let mut consumed: u64 = 0;
+        let mut consumed_raw: u64 = 0;
         let mut seen = Vec::new();
         for e in &obs.history {
             match e.kind.as_str() {
-                "read" if e.pid == 2 && e.a == 0 => consumed += e.b as u64,
+                "read" if e.pid == 2 && e.a == 0 => consumed_raw += e.b as u64,
                 "tell" if e.pid == 2 => {
                     let k: u32 = e.text.trim().parse().unwrap_or(0);
                     let want = exp.tells.iter().find(|t| t.0 == k).map(|t| t.1);
+                    // (bytes a command read through a redirected descriptor 0
+                    // are not input of the shell)
+                    let foreign = exp.foreign.iter().find(|t| t.0 == k).map(|t| t.1).unwrap_or(0);
+                    let consumed = consumed_raw.saturating_sub(foreign);
                     seen.push(k);
                     let got = if variant == Variant::FileStdin {
                         e.a as u64
@@ -1262,7 +1298,8 @@ impl Prop for C18 {
             }
         }
         // a disk error: the k-th read of the input file fails with EIO
-        if !case.trap && !replaces_input {
+        let foreign0 = case.units.iter().any(|u| u.foreign0 > 0);
+        if !case.trap && !replaces_input && !foreign0 {
             let reads = {
                 let (obs, _) = run_one(&case, Variant::FileStdin, &SimConfig::default(), Decider::record(Rng::new(1)));
                 obs.file_io.1
